@@ -37,7 +37,8 @@ def plan(tier, seed):
         'bound': 'binary: ' + ', '.join('n=%d:u<=%d' % s for s in bspecs) + '; inorder: ' + ', '.join('n=%d:u<=%d' % s for s in ispecs),
         'exhaustive': True,
         'assumptions': ['topdown sequences are replayed right-to-left (DESIGN D1, pinned golden test)',
-                        'head flags are set by the harness directly (leftmost HD child), not by the library'],
+                        'head flags are set by the harness directly (leftmost HD child), not by the library',
+                        'every tree is built twice: child lists stored in token order and reversed'],
     }
 
 
@@ -190,9 +191,9 @@ def show(x):
     return '(%s%s %s)' % (x[0], '' if x[2] is None else '[head@%d]' % x[2], ' '.join(show(k) for k in x[1]))
 
 
-def check_one(mtj, system):
+def check_one(mtj, system, order=None):
     mt = model.MT.from_json(mtj)
-    case = {'mt': mtj, 'system': system}
+    case = {'mt': mtj, 'system': system, 'order': order}
     out = []
 
     def bad(kind, detail, what=None):
@@ -200,7 +201,7 @@ def check_one(mtj, system):
                     'detail': '%s [input %s]' % (detail, model.mt_str(mt.root, mt.toks)),
                     'what': what or ('%s: %s' % (system, kind))})
     fn, with_heads = REPLAY[system]
-    t = set_heads(build(mt))
+    t = set_heads(build(mt, child_order=order))
     try:
         terms, trans = getattr(transitions, system)(t)
         seq = [str(x) for x in trans]
@@ -288,7 +289,7 @@ def check_case(case):
     with quiet():
         if 'cli' in case:
             return check_cli(case['cli'], case['n'])[0]
-        return check_one(case['mt'], case['system'])
+        return check_one(case['mt'], case['system'], case.get('order'))
 
 
 def side_choices(sh):
@@ -322,12 +323,13 @@ def run_chunk(chunk):
                 for system in systems:
                     if system == 'topdown' and not cont:
                         continue
-                    vs = check_one(j, system)
-                    res.evals += 1
-                    if mt.n() >= 2 and (k > 0 or not cont or any(c == 1 for c in choice.values())):
-                        res.nontrivial += 1
-                    res.outcome((mt.key(), system, len(vs)))
-                    for v in vs:
-                        res.violation(v['kind'], v['where'], v['case'], v['detail'], v['what'])
+                    for order in (None, 'rev'):
+                        vs = check_one(j, system, order)
+                        res.evals += 1
+                        if mt.n() >= 2 and (k > 0 or not cont or any(c == 1 for c in choice.values())):
+                            res.nontrivial += 1
+                        res.outcome((mt.key(), system, order, len(vs)))
+                        for v in vs:
+                            res.violation(v['kind'], v['where'], v['case'], v['detail'], v['what'])
             res.sample({'tree': model.mt_str(mt.root, mt.toks), 'systems': systems})
     return res
